@@ -824,6 +824,8 @@ where
             let point2 = if let Some(asc) = self.read.next_n(6) {
                 if asc[0] != b'\\' || asc[1] != b'u' {
                     if self.cfg.utf8_lossy {
+                        // only the unpaired surrogate is replaced, keep what follows it
+                        self.read.backward(6);
                         return Ok(0xFFFD);
                     } else {
                         // invalid surrogate
@@ -842,6 +844,8 @@ where
             let low_bit = point2.wrapping_sub(0xdc00);
             if (low_bit >> 10) != 0 {
                 if self.cfg.utf8_lossy {
+                    // the following escape is not a low surrogate, decode it on its own
+                    self.read.backward(6);
                     return Ok(0xFFFD);
                 } else {
                     // invalid surrogate
